@@ -94,6 +94,9 @@ def classify_origin(P, fn, o, depth=0, trail=None):
             return {"fileinfo"}
     if root[0] == "param" and fn.id == "directory::init" and root[1] == 2 and len(o) == 1:
         return {"dirparam"}
+    if root[0] == "param" and fn.kind != "closure" and fn.id != "main" and \
+            not [c for c in P.callers.get(fn.id, []) if not c.fn.body.get("in_test")]:
+        return {"uncalled"}          # dead production code: no caller can supply a path
     if root[0] == "param" and depth < 10:
         out = set()
         lifted = P.lift(fn, o)
@@ -131,6 +134,9 @@ def classify_path_operand(P, fn, op, depth=0):
             cls_here = classify_origin(P, fn, o)
             if all(not c.startswith("other:") for c in cls_here):
                 out |= cls_here
+                continue
+            if len(o) == 1 and fn.kind != "closure" and not [c for c in sites if not c.fn.body.get("in_test")]:
+                out.add("uncalled")
                 continue
             if len(o) == 1 and sites and fn.kind != "closure":
                 for cs in sites:
@@ -643,6 +649,8 @@ def vacant(P, fn, bb, path_origins, depth=0, trail=None):
         return True, trail
     if depth < 8:
         sites = P.lift_once(fn, path_origins)
+        if sites == [] and fn.kind != "closure" and fn.id != "main":
+            return True, trail + ["(no production caller)"]
         if not sites:
             return False, trail
         for (cf, cbb, po) in sites:
